@@ -309,6 +309,20 @@ def initiator_case(ck, rng, i):
         ck.violation('initiator-stalled-after-the-cookie-round', {}, sim.case)
         return
     areq = sim.net.pop(0).data
+    # the AUTH payload of the initiator must cover the request it sent LAST (cookie first), octet for octet (RFC 7296 2.15)
+    try:
+        _h, inner_, _i = p.open(areq)
+        v_id = next(x for x in inner_ if x['type'] == codec.IDI)
+        v_auth = next(x for x in inner_ if x['type'] == codec.AUTH)
+        from vf.ref import ikecrypto as _ikc
+        octs = p.peer_signed_octets(v_id['idtype'], v_id['data'])
+        ck.count('initiator.auth_after_cookie_verified')
+        if v_auth['method'] != 2 or v_auth['data'] != _ikc.psk_auth(p.suite['prf'], c02.PSK_A, octs):
+            ck.violation('auth-after-the-cookie-round-does-not-cover-the-request-sent-last', {'second_challenge': i % 2 == 0, 'retransmitted_before_the_challenge': early}, sim.case)
+            return
+    except Exception as ex:
+        ck.violation(f'initiator-ike-auth-after-cookie-not-openable:{type(ex).__name__}', {}, sim.case)
+        return
     try:
         sim.inject(a, peer, me, p.respond_auth(areq, c02.ID_B[0], c02.ID_B[1], 2, p.auth_psk(c02.PSK_B, *c02.ID_B)))
     except Exception as ex:
@@ -357,5 +371,6 @@ def verdict(ck):
     ck.floor('initiators that completed after the cookie round', c['initiator.completed_after_cookie'], 10)
     ck.floor('retransmissions of the repeated request compared', c['initiator.retransmissions_of_the_repeated_request'], 12)
     ck.floor('... of which after the cookie-less request had itself been retransmitted', c['initiator.retransmissions_checked_after_an_earlier_retransmission'], 5)
+    ck.floor('AUTH payloads verified by the reference over the request sent last', c['initiator.auth_after_cookie_verified'], 10)
     ck.floor('second cookie challenges', c['initiator.second_challenges'], 8)
     return None
